@@ -109,8 +109,14 @@ KERNEL_GATES = {
 
 
 def kernel_gates(rep, F, which, rule='KERNEL-GATE'):
-    """who-may-call: the magnitude kernels are reached only through the entry point that prepares their sign handling"""
+    """must-pass-through on the call graph: every call path from an API root (a function nobody in the crate calls: public
+    methods, trait impls) to a magnitude kernel goes through one of the gate functions that prepare its sign handling.
+    A private helper inserted between gate and kernel is fine; an entry point that reaches the kernel around the gate is not"""
     cg = F.callgraph()
+    callers = {}
+    for k, vs in cg.items():
+        for v in vs:
+            callers.setdefault(v, set()).add(k)
     n = 0
     for tgt, (pat, why) in sorted(KERNEL_GATES.items()):
         if not re.search(which, tgt):
@@ -119,15 +125,28 @@ def kernel_gates(rep, F, which, rule='KERNEL-GATE'):
             rep.violation(rule, tgt.split('::')[-1] + ':missing', 'anchor function not found (fail closed)')
             continue
         n += 1
-        callers = sorted(k for k, v in cg.items() if tgt in v and k != tgt)
-        bad = [c for c in callers if not re.search(pat, c)]
+        # walk callers backwards from the kernel, not entering gates
+        seen, st = set(), [tgt]
+        gates_hit = set()
+        while st:
+            x = st.pop()
+            for c in callers.get(x, ()):
+                if c == x or c in seen:
+                    continue
+                if re.search(pat, c):
+                    gates_hit.add(c)
+                    continue
+                seen.add(c)
+                st.append(c)
+        # a bypass: a function reached that way which is an API root (no callers besides itself / closures' parents)
+        roots_ = [c for c in sorted(seen) if not F.fns[c].is_closure and not [q for q in callers.get(c, ()) if q != c]]
         key = F.fns[tgt].key + ':callers'
-        if bad:
-            rep.violation(rule, key, '%s calls the magnitude kernel directly; %s - a caller that bypasses it loses that step' % (bad[0], why), F.fns[bad[0]].where())
-        elif not callers:
-            rep.undecided(rule, key, 'no caller found', F.fns[tgt].where())
+        if roots_:
+            rep.violation(rule, key, '%s reaches the magnitude kernel without passing through its gate; %s - a caller that bypasses it loses that step' % (roots_[0], why), F.fns[roots_[0]].where())
+        elif not gates_hit:
+            rep.undecided(rule, key, 'no gate function found among the callers', F.fns[tgt].where())
         else:
-            rep.ok(rule, key, 'called only from %s (%s)' % (', '.join(c.split('::')[-1] for c in callers), why), F.fns[tgt].where())
+            rep.ok(rule, key, 'every call path from an API entry passes through %s (%s)' % (', '.join(sorted(c.split('::')[-1] for c in gates_hit)), why), F.fns[tgt].where())
     return n
 
 
